@@ -80,6 +80,9 @@ class E:
     def inp(buf, k):       # pre-state element k of buffer `buf` (k: int or E of integer type)
         return E('in', buf.ty, (), (buf, k))
     @staticmethod
+    def post(buf, k):      # post-state element k of an out / inout buffer (only inside boolean clauses)
+        return E('post', buf.ty, (), (buf, k))
+    @staticmethod
     def arg(sc):           # scalar argument
         return E('arg', sc.ty, (), sc)
     @staticmethod
@@ -100,6 +103,7 @@ class E:
     def sqrt(s): return E('sqrt', s.ty, (s,))
     def fn(s, name): return E('libm', s.ty, (s,), name)
     def cmp(s, pred, o): return E('cmp', BOOL, (s, s._lift(o)), pred)   # pred in lt le gt ge eq ne
+    def same(s, o): return E('same', BOOL, (s, s._lift(o)))   # bit-for-bit equality
     def band(s, o): return E('land', BOOL, (s, o))
     def bor(s, o): return E('lor', BOOL, (s, o))
     def bnot(s): return E('lnot', BOOL, (s,))
@@ -130,6 +134,9 @@ class E:
             buf, k = s.data
             ke = k.c(ctx) if isinstance(k, E) else str(k)
             return ctx['pre'](buf, ke)
+        if op == 'post':
+            buf, k = s.data
+            return ctx['post'](buf, k.c(ctx) if isinstance(k, E) else str(k))
         if op == 'arg':
             return ctx['argname'](s.data)
         if op == 'const':
@@ -169,6 +176,7 @@ class E:
             if at.signed and at.kind == 'int':
                 return '((u8)((%s)%s %s (%s)%s))' % (at.scar, A[0], cop, at.scar, A[1])
             return '((u8)(%s %s %s))' % (A[0], cop, A[1])
+        if op == 'same': return '((u8)((%s) == (%s)))' % (A[0], A[1])
         if op == 'land': return '((u8)((%s) && (%s)))' % (A[0], A[1])
         if op == 'lor': return '((u8)((%s) || (%s)))' % (A[0], A[1])
         if op == 'lnot': return '((u8)(!(%s)))' % A[0]
@@ -202,6 +210,9 @@ class E:
             buf, k = s.data
             ke = k.cpp(ctx) if isinstance(k, E) else str(k)
             return '%s_pre[%s]' % (buf.name, ke)
+        if op == 'post':
+            buf, k = s.data
+            return '%s[%s]' % (buf.name, k.cpp(ctx) if isinstance(k, E) else str(k))
         if op == 'arg': return s.data.name
         if op == 'const':
             v = s.data
@@ -231,6 +242,7 @@ class E:
         if op == 'cmp':
             cop = {'lt': '<', 'le': '<=', 'gt': '>', 'ge': '>=', 'eq': '==', 'ne': '!='}[s.data]
             return '(%s %s %s)' % (A[0], cop, A[1])
+        if op == 'same': return 'same<%s>(%s, %s)' % (s.args[0].ty.cpp, A[0], A[1])
         if op == 'land': return '(%s && %s)' % (A[0], A[1])
         if op == 'lor': return '(%s || %s)' % (A[0], A[1])
         if op == 'lnot': return '(!%s)' % A[0]
@@ -268,7 +280,7 @@ class Case:
         s.zero_in = zero_in or {}     # {bufname: set(k)} input elements constrained to zero (tmatmul triangles)
         s.pre = pre                   # C++ text placed before the entry (helper types)
         s.dw = dw                     # ATOMS data width override
-        s.unwind = unwind; s.timeout = timeout; s.form = form
+        s.unwind = unwind; s.timeout = timeout; s.form = os.environ.get('VERIF_FORM', form)
         s.replay_values = replay_values
         s.expect_throw = expect_throw
         s.extra_asserts = list(extra_asserts)
@@ -379,8 +391,12 @@ def contract_text(case, fname='w'):
     L.append('__CPROVER_assigns(%s)' % ', '.join(asg))
     if case.mode == 'ATOMS':
         L.append('__CPROVER_ensures(VERIF_illtyped == 0)')      # applicability obligation: postcondition.1
+    ctx['post'] = lambda buf, ke: '((%s*)%s)[%s]' % (buf.ty.carrier, pn[buf.name], ke)
     for (b, k, e) in case.ensures:
-        L.append('__CPROVER_ensures(((%s*)%s)[%d] == %s)' % (b.ty.carrier, pn[b.name], k, e.c(ctx)))
+        if b == 'bool':
+            L.append('__CPROVER_ensures(%s)' % e.c(ctx))
+        else:
+            L.append('__CPROVER_ensures(((%s*)%s)[%d] == %s)' % (b.ty.carrier, pn[b.name], k, e.c(ctx)))
     return '\n'.join(L) + '\n'
 
 def dfcc_main(case, fname='w'):
@@ -432,9 +448,13 @@ def harness_main(case, fname='w'):
     if case.mode == 'ATOMS':
         L.append('  __CPROVER_assert(VERIF_illtyped == 0, "post.applicability");')
     n = 0
+    ctx['post'] = lambda buf, ke: '%s[%s]' % (buf.name, ke)
     for (b, k, e) in case.ensures:
         n += 1
-        L.append('  __CPROVER_assert(%s[%d] == %s, "post.%d %s[%d]");' % (b.name, k, e.c(ctx), n, b.name, k))
+        if b == 'bool':
+            L.append('  __CPROVER_assert(%s, "post.%d %s");' % (e.c(ctx), n, k))
+        else:
+            L.append('  __CPROVER_assert(%s[%d] == %s, "post.%d %s[%d]");' % (b.name, k, e.c(ctx), n, b.name, k))
     for b in case.bufs:
         if b.role == 'in':
             L.append('  for (int k = 0; k < %d; k++) __CPROVER_assert(%s[k] == %s_pre[k], "frame.%s input unchanged");' % (b.n, b.name, b.name, b.name))
@@ -471,7 +491,7 @@ def run(cmd, timeout, cwd=None, mem_kb=None):
     """run with a wall-clock and an address-space limit; returns (rc, stdout, stderr, seconds); rc None = timeout."""
     t0 = time.time()
     lim = mem_kb or MEM_KB
-    sh = 'ulimit -v %d; exec "$@"' % lim
+    sh = ('ulimit -v %d; exec "$@"' % lim) if lim != 'unlimited' else 'exec "$@"'
     try:
         p = subprocess.run(['bash', '-c', sh, 'x'] + cmd, cwd=cwd, capture_output=True, text=True, timeout=timeout)
         return p.returncode, p.stdout, p.stderr, time.time() - t0
@@ -542,11 +562,18 @@ def stage_translate(args):
         d = dict(cid=case.cid, t_compile=tcompile / len(named), clang_cmd=' '.join(cmd), gdir=gdir, entry=name)
         try:
             t1 = time.time()
-            contracts = {name: contract_text(case, name)} if case.form == 'dfcc' else {}
-            ctext, info = ir2c.translate(mod, [name], atoms=(case.mode == 'ATOMS'), contracts=contracts, data_bits=case_data_bits(case))
-            main = dfcc_main(case, name) if case.form == 'dfcc' else harness_main(case, name)
-            cfile = os.path.join(gdir, name + '.c')
-            open(cfile, 'w').write(prelude_text(case) + ctext + main)
+            pre = prelude_text(case)
+            db = case_data_bits(case)
+            pb = [b.ty.bits for b in case.bufs]
+            ctext_h, info = ir2c.translate(mod, [name], atoms=(case.mode == 'ATOMS'), contracts={}, data_bits=db, param_bits=pb)
+            hfile = os.path.join(gdir, name + '.h.c')
+            open(hfile, 'w').write(pre + ctext_h + harness_main(case, name))
+            d['hfile'] = hfile
+            cfile = hfile
+            if case.form == 'dfcc':
+                ctext, info = ir2c.translate(mod, [name], atoms=(case.mode == 'ATOMS'), contracts={name: contract_text(case, name)}, data_bits=db, param_bits=pb)
+                cfile = os.path.join(gdir, name + '.c')
+                open(cfile, 'w').write(pre + ctext + dfcc_main(case, name))
             d.update(status='TRANSLATED', cfile=cfile, info=info, t_ir2c=time.time() - t1)
         except ir2c.Unsupported as e:
             d.update(status='UNDECIDED', detail='ir2c: %s' % e)
@@ -555,7 +582,7 @@ def stage_translate(args):
         res.append(d)
     return res
 
-def run_cbmc_on(cfile, entry, form, unwind, timeout, extra=()):
+def run_cbmc_on(cfile, entry, form, unwind, timeout, extra=(), mem_kb=None):
     """goto-cc + (goto-instrument --dfcc) + cbmc. returns dict(status, results{name:(desc,verdict)}, log...)"""
     base = cfile[:-2]
     d = dict()
@@ -571,7 +598,7 @@ def run_cbmc_on(cfile, entry, form, unwind, timeout, extra=()):
             d.update(status='UNDECIDED', detail='goto-instrument --dfcc failed: ' + (se + so)[-2000:]); return d
         gb = base + '.i.gb'
     cmd = ['cbmc', gb] + list(extra)
-    rc, so, se, dt = run(cmd, timeout)
+    rc, so, se, dt = run(cmd, timeout, mem_kb=mem_kb)
     d['t_cbmc'] = dt; d['cbmc_cmd'] = ' '.join(cmd)
     log = so + '\n' + se
     open(base + '.log', 'w').write(log)
@@ -641,20 +668,426 @@ def describe_obligation(case, key, desc):
         i = n - 1 - off
         if 0 <= i < len(case.ensures):
             b, k, e = case.ensures[i]
+            if b == 'bool': return '%s: ensures %s' % (key, k)
             return '%s: ensures %s[%d] == spec' % (key, b.name, k)
     m = re.match(r'post\.(\d+|applicability)', desc)
     if m:
         return '%s: %s' % (key, desc)
     return '%s: %s' % (key, desc)
 
+DFCC_BUDGET = int(os.environ.get('VERIF_DFCC_BUDGET', '45'))
+
 def stage_verify(args):
+    """enforce the contract with goto-instrument --dfcc within a time/memory budget; where the instrumented
+    program does not fit the budget, check the *same* clauses in assertion form (frame = exact-extent objects +
+    inputs unchanged) and say so (form_used='assertion')."""
     case, d, keep = args
     if d['status'] != 'TRANSLATED': return d
     unwind = default_unwind(case)
     timeout = case.timeout or int(os.environ.get('VERIF_CASE_TIMEOUT', '300'))
-    r = run_cbmc_on(d['cfile'], d['entry'], case.form, unwind, timeout, cbmc_flags(case, unwind))
-    d.update(r)
+    form = case.form
+    if form == 'dfcc':
+        r = run_cbmc_on(d['cfile'], d['entry'], 'dfcc', unwind, min(timeout, DFCC_BUDGET), cbmc_flags(case, unwind), mem_kb=4 * 1024 * 1024)
+        det = r.get('detail', '')
+        if r['status'] == 'UNDECIDED' and ('timeout' in det or 'rc=6' in det or 'out of memory' in det.lower() or '__CPROVER_contracts' in det or 'rc=-' in det):
+            d['dfcc_fallback'] = det[:200]
+            d['t_dfcc_wasted'] = r.get('t_cbmc', 0)
+            form = 'harness'
+        else:
+            d.update(r); d['form_used'] = 'dfcc'
+    if form == 'harness':
+        r = run_cbmc_on(d['hfile'], d['entry'], 'harness', unwind, timeout, cbmc_flags(case, unwind))
+        d.update(r); d['form_used'] = 'assertion'
     if d['status'] == 'RAN':
         classify(case, d)
+        if d['status'] == 'UNDECIDED' and d.get('form_used') == 'dfcc' and '__CPROVER_contracts' in d.get('detail', ''):
+            d['dfcc_fallback'] = d['detail'][:200]
+            d['status'] = 'TRANSLATED'
+            r = run_cbmc_on(d['hfile'], d['entry'], 'harness', unwind, timeout, cbmc_flags(case, unwind))
+            d.update(r); d['form_used'] = 'assertion'
+            if d['status'] == 'RAN': classify(case, d)
     d.pop('results', None)
     return d
+
+# ----------------------------------------------------------------------------------------------
+# native replay of a failed case on the real code
+# ----------------------------------------------------------------------------------------------
+def parse_trace_inputs(case, log):
+    """pull the harness inputs out of a cbmc --trace text: the harness assigns every input element explicitly."""
+    vals = {}
+    names = {b.name for b in case.bufs}
+    for m in re.finditer(r'^\s+(\w+)\[(\d+)l?\]=(-?\d+)[ul]*\s', log, re.M):
+        n, k, v = m.group(1), int(m.group(2)), int(m.group(3))
+        if n in names and (n, k) not in vals: vals[(n, k)] = v   # first assignment = the nondet input
+    sc = {}
+    snames = {s.name for s in case.scalars}
+    for m in re.finditer(r'^\s+(\w+)=(-?\d+)[ul]*\s', log, re.M):
+        if m.group(1) in snames and m.group(1) not in sc: sc[m.group(1)] = int(m.group(2))
+    return vals, sc
+
+def cpp_literal(ty, carrier_value):
+    b = ty.bits
+    v = carrier_value & ((1 << b) - 1)
+    if ty.kind == 'float':
+        return 'bits_to_%s(0x%xULL)' % (ty.name, v)
+    if ty.kind == 'bool': return '%d' % (1 if v else 0)
+    if ty.signed and v >= 1 << (b - 1): v -= 1 << b
+    if ty.bits == 64: return '((%s)%d%s)' % (ty.cpp, v, 'LL' if ty.signed else 'ULL') if v != -(1 << 63) else '((%s)(-9223372036854775807LL-1))' % ty.cpp
+    return '((%s)%d%s)' % (ty.cpp, v, '' if ty.signed else 'U') if v != -(1 << 31) else '((%s)(-2147483647-1))' % ty.cpp
+
+def replay_source(case, vectors):
+    """C++ program: the case's entry on the real headers + oracle from the contract; vectors = list of
+    dict(bufs={(name,k):carrier}, scalars={name:val}) explicit inputs; plus seeded generic inputs."""
+    L = ['#include <Fastor/Fastor.h>', '#include <cstdio>', '#include <cstring>', '#include <cstdlib>', '#include <cmath>', '#include <cstdint>',
+         'using namespace Fastor;', 'enum {I_,J_,K_,L_,M_,N_,O_,P_,Q_,R_};', case.pre,
+         entry_signature(case, 'w') + ' {\n' + case.body + '\n}',
+         'static float bits_to_float(unsigned long long b){ unsigned u=(unsigned)b; float f; std::memcpy(&f,&u,4); return f; }',
+         'static double bits_to_double(unsigned long long b){ double f; std::memcpy(&f,&b,8); return f; }',
+         'static unsigned long long rng_state = 88172645463325252ULL;',
+         'static unsigned long long rng(){ rng_state ^= rng_state << 13; rng_state ^= rng_state >> 7; rng_state ^= rng_state << 17; return rng_state; }',
+         'template<class T> static bool same(T x, T y){ return std::memcmp(&x,&y,sizeof(T))==0; }',
+         'template<class T> static void show(const char*n, T v){ unsigned long long b=0; std::memcpy(&b,&v,sizeof(T)); std::printf("%s=%.17g(0x%llx) ", n, (double)v, b); }']
+    exact = case.mode in ('ATOMS', 'B01') or case.bounded
+    L.append('static int run(int trial, %s) {' % ', '.join(['%s *%s' % (b.ty.cpp, b.name) for b in case.bufs] + ['%s %s' % (s.ty.cpp, s.name) for s in case.scalars]))
+    for b in case.bufs:
+        L.append('  %s %s_pre[%d]; for (int k=0;k<%d;k++) %s_pre[k]=%s[k];' % (b.ty.cpp, b.name, b.n, b.n, b.name, b.name))
+    L.append('  w(%s);' % ', '.join([b.name for b in case.bufs] + [s.name for s in case.scalars]))
+    L.append('  int bad = 0;')
+    ctx = {}
+    for i, (b, k, e) in enumerate(case.ensures):
+        if b == 'bool':
+            L.append('  { if (!(%s)) { if (!bad) std::printf("MISMATCH trial %%d clause %d: %s\\n", trial); bad++; } }' % (e.cpp(ctx), i + 1, k))
+            continue
+        L.append('  { %s want = %s; %s got = %s[%d]; if (!same(got, want) && !(want != want && got != got)) { if (!bad) { std::printf("MISMATCH trial %%d clause %d: %s[%d] ", trial); show("got", got); show("want", want); std::printf("\\n"); } bad++; } }'
+                 % (b.ty.cpp, e.cpp(ctx), b.ty.cpp, b.name, k, i + 1, b.name, k))
+    for b in case.bufs:
+        if b.role == 'in':
+            L.append('  for (int k=0;k<%d;k++) if (!same(%s[k], %s_pre[k])) { if (!bad) std::printf("MISMATCH trial %%d frame: input %s[%%d] modified\\n", trial, k); bad++; }' % (b.n, b.name, b.name, b.name))
+    L.append('  if (bad) { std::printf("INPUT trial %d:", trial);')
+    for b in case.bufs:
+        L.append('    std::printf(" %s={"); for (int k=0;k<%d;k++) std::printf("%%.17g,", (double)%s_pre[k]); std::printf("}");' % (b.name, b.n, b.name))
+    for s_ in case.scalars:
+        L.append('    std::printf(" %s=%%lld", (long long)%s);' % (s_.name, s_.name))
+    L.append('    std::printf("\\n"); }')
+    L.append('  return bad; }')
+    L.append('int main(int argc, char **argv) {')
+    L.append('  unsigned long long seed = argc > 1 ? std::strtoull(argv[1], 0, 10) : 1; rng_state ^= seed * 0x9E3779B97F4A7C15ULL; if (!rng_state) rng_state = 1;')
+    L.append('  int bad = 0, trial = 0;')
+    # buffers: exact-extent heap blocks so that an AddressSanitizer build sees any access outside them
+    for b in case.bufs:
+        L.append('  %s *%s = (%s*)std::malloc(%d * sizeof(%s));' % (b.ty.cpp, b.name, b.ty.cpp, b.n, b.ty.cpp))
+    def call():
+        return '  bad += run(trial++, %s);' % ', '.join([b.name for b in case.bufs] + [s.name for s in case.scalars])
+    for s_ in case.scalars:
+        L.append('  %s %s = %s;' % (s_.ty.cpp, s_.name, '0'))
+    for vec in vectors:
+        for b in case.bufs:
+            for k in range(b.n):
+                v = vec['bufs'].get((b.name, k), 0)
+                L.append('  %s[%d] = %s;' % (b.name, k, cpp_literal(b.ty, v)))
+        for s_ in case.scalars:
+            L.append('  %s = %s;' % (s_.name, cpp_literal(s_.ty, vec['scalars'].get(s_.name, s_.lo or 0))))
+        L.append(call())
+    # generic inputs
+    L.append('  for (int t = 0; t < 64; t++) {')
+    for b in case.bufs:
+        zs = sorted(case.zero_in.get(b.name, ()))
+        if b.ty.kind == 'float':
+            if exact: gen = '(%s)(long long)(rng() %% 19) - 9' % b.ty.cpp
+            else: gen = '(t %% 4 == 3) ? bits_to_%s(rng()) : (%s)((long long)(rng() %% 2001) - 1000) / (%s)(1 + rng() %% 7)' % (b.ty.name, b.ty.cpp, b.ty.cpp)
+        elif b.ty.kind == 'bool': gen = '(bool)(rng() & 1)'
+        else:
+            if exact: gen = '(%s)((long long)(rng() %% 19) - 9)' % b.ty.cpp
+            else: gen = '(t %% 3 == 0) ? (%s)rng() : (%s)((long long)(rng() %% 41) - 20)' % (b.ty.cpp, b.ty.cpp)
+        L.append('    for (int k = 0; k < %d; k++) %s[k] = %s;' % (b.n, b.name, gen))
+        for k in zs: L.append('    %s[%d] = 0;' % (b.name, k))
+    for s_ in case.scalars:
+        if s_.lo is not None:
+            L.append('    %s = (%s)(%d + (long long)(rng() %% %d));' % (s_.name, s_.ty.cpp, s_.lo, s_.hi - s_.lo + 1))
+    # replay_hook: cases may constrain generic inputs (e.g. duplicate-free index vectors)
+    if case.replay_values: L.append(case.replay_values)
+    L.append('  ' + call())
+    L.append('  }')
+    for b in case.bufs: L.append('  std::free(%s);' % b.name)
+    L.append('  std::printf("REPLAY trials=%d mismatching=%d\\n", trial, bad);')
+    L.append('  return bad ? 1 : 0; }')
+    return '\n'.join(x for x in L if x is not None) + '\n'
+
+def native_replay(case, gdir, vectors, seed):
+    """build and run the replay program with g++ (the pinned suite's compiler) and clang++ under ASan."""
+    out = {'runs': []}
+    src = os.path.join(gdir, 'replay_%s.cpp' % case.safe_id())
+    open(src, 'w').write(replay_source(case, vectors))
+    out['source'] = src
+    flags = case.cfg.cxxflags() + ['-ffp-contract=off']
+    builds = [('g++ -O2', ['g++', '-O2'] + flags), ('clang++ -O1 -fsanitize=address', ['clang++-14', '-O1', '-fsanitize=address', '-fno-omit-frame-pointer'] + flags)]
+    reproduced = False
+    for label, cmd in builds:
+        exe = src[:-4] + ('.gcc' if label.startswith('g++') else '.asan')
+        rc, so, se, dt = run(cmd + [src, '-o', exe], 600, mem_kb=32 * 1024 * 1024 * 4)
+        if rc != 0:
+            out['runs'].append(dict(build=label, status='build failed', detail=(se or so)[-1500:])); continue
+        rc, so, se, dt = run([exe, str(seed)], 120, mem_kb='unlimited')
+        text = (so + se)[-4000:]
+        bad = (rc == 1 and 'MISMATCH' in so) or 'ERROR: AddressSanitizer' in se or 'runtime error:' in se
+        out['runs'].append(dict(build=label, rc=rc, output=text))
+        if bad: reproduced = True
+        try: os.unlink(exe)
+        except OSError: pass
+    out['reproduced'] = reproduced
+    return out
+
+def stage_replay(args):
+    """worker for a failed case: extract a counterexample with the assertion form, replay natively."""
+    case, d, seed = args
+    gdir = d['gdir']; name = d['entry']
+    vectors = []
+    rep = {'case': case.cid, 'property': case.prop, 'config': case.cfg.tag(), 'mode': case.mode,
+           'failed_obligations': d.get('failed_names', []), 'verifier_log': d.get('log'),
+           'cbmc_cmd': d.get('cbmc_cmd'), 'unit': os.path.join(gdir, 'unit.cpp')}
+    try:
+        log = open(d['log']).read()
+        rep['verifier_output_tail'] = '\n'.join(l for l in log.splitlines() if 'FAILURE' in l)[:6000]
+    except Exception:
+        pass
+    if case.mode in ('SYM', 'UF') and not case.bounded:
+        try:
+            mod = ir2c.parse_module(open(os.path.join(gdir, 'unit.ll')).read())
+            ctext, info = ir2c.translate(mod, [name], atoms=False, contracts={}, data_bits=case_data_bits(case), param_bits=[b.ty.bits for b in case.bufs])
+            hfile = os.path.join(gdir, name + '.cex.c')
+            open(hfile, 'w').write(prelude_text(case) + ctext + harness_main(case, name))
+            unwind = default_unwind(case)
+            r = run_cbmc_on(hfile, name, 'harness', unwind, 300, cbmc_flags(case, unwind) + ['--trace', '--stop-on-fail'])
+            if r.get('log'):
+                tl = open(r['log']).read()
+                if 'VACUITY-CANARY' in tl and tl.count('Violated property') == 1 and 'VACUITY-CANARY' in tl.split('Violated property')[1][:400]:
+                    rep['cex_note'] = 'assertion-form harness found no failing clause (only the canary)'
+                else:
+                    vals, sc = parse_trace_inputs(case, tl)
+                    if vals or sc:
+                        vectors.append({'bufs': vals, 'scalars': sc})
+                        rep['counterexample'] = {'bufs': {'%s[%d]' % k: v for k, v in sorted(vals.items())}, 'scalars': sc}
+        except Exception as e:
+            rep['cex_error'] = traceback.format_exc()[-800:]
+    try:
+        nr = native_replay(case, gdir, vectors, seed)
+        rep['native'] = nr
+        if nr.get('source'):
+            rep['replay_source_text'] = open(nr['source']).read()
+    except Exception as e:
+        rep['native'] = {'error': traceback.format_exc()[-800:], 'reproduced': False}
+    d['replay'] = rep
+    return d
+
+# ----------------------------------------------------------------------------------------------
+# known findings
+# ----------------------------------------------------------------------------------------------
+def load_known_findings(path=None):
+    path = path or os.path.join(VERIF, 'known_findings.txt')
+    out = []
+    if not os.path.exists(path): return out
+    for line in open(path):
+        line = line.strip()
+        m = re.match(r'finding:\s*property=(\S+)\s+case=(\S+)\s+obligation=(\S+)\s*::\s*(.*)$', line)
+        if m: out.append(dict(prop=m.group(1), case=re.compile(m.group(2)), obl=re.compile(m.group(3)), text=m.group(4)))
+    return out
+
+def match_finding(findings, case, d):
+    names = d.get('failed_names') or [d.get('detail', '')]
+    for f in findings:
+        if f['prop'] != case.prop or not f['case'].fullmatch(case.cid): continue
+        if all(f['obl'].search(n) for n in names): return f
+    return None
+
+# ----------------------------------------------------------------------------------------------
+# property runner
+# ----------------------------------------------------------------------------------------------
+TRUSTED_BASE = [
+    'clang++-14 front end and the fixed IR pipeline (P1: -O1 -fno-vectorize -fno-slp-vectorize -fno-unroll-loops -ffp-contract=off; P0: -O0 + opt always-inline,sroa,early-cse,simplifycfg,inline,dce)',
+    'tools/ir2c.py LLVM-IR -> C translation and its intrinsic table (must-fire: unknown construct => undecided)',
+    'tools/prelude/*.h (mode macros, exception/allocation stubs)',
+    'CBMC 6.11.0 (goto-cc, goto-instrument --dfcc, cbmc, MiniSat back end) and its C library models',
+    'GCC code generation is not modelled (clang IR only); strict-aliasing UB is invisible (memory is bytes)',
+]
+DROPPED = [
+    'metadata (!tbaa, !alias.scope, !noalias, !llvm.loop, debug info), parameter/return attributes',
+    'poison flags nsw/nuw/exact/inbounds and fast-math flags: integer arithmetic wraps; inbounds replaced by pointer checks on the access',
+    'undef/poison and undef shuffle lanes become fresh nondeterministic values',
+    'llvm.lifetime/invariant/assume/noalias.scope.decl are no-ops (use-after-scope not detected)',
+    'exception edges: invoke = call + normal edge; landingpad/resume = assume(false); __cxa_throw sets VERIF_threw and ends the path',
+    'atomic loads / guard variables of function-local statics: single-threaded semantics',
+    'empty inline asm (Fastor unused()) dropped',
+]
+MODE_ASSUMPTIONS = {
+    'SYM': 'SYM: element values fully symbolic, real two\'s-complement / IEEE semantics (sqrt and fused multiply-add opaque)',
+    'UF': 'UF: fadd fsub fmul fdiv fma sqrt and int<->float conversions are uninterpreted functions on bit patterns (fadd, fmul commutative); a clause proved for every interpretation holds for IEEE-754; machine float arithmetic is otherwise not interpreted',
+    'ATOMS': 'ATOMS: provenance-concrete evaluation; proves out[e] equals the specified sum of products for every 0/1 product table and that no operation leaves the provenance typing; the lift to all element values is the linear-form lemma of DESIGN.md section 4 (coefficients compared modulo 2^14 for 32-bit, 2^46 for 64-bit carriers); float units are verified in the ring reinterpretation, i.e. exact for integer-valued data; rounding bounds are not machine-checked',
+    'B01': 'B01: inputs restricted to {0,1} (exhaustive by SAT); bounded, not counted as proved',
+}
+
+def chunks(lst, n):
+    for i in range(0, len(lst), n): yield lst[i:i + n]
+
+def run_property(prop, cases, tier, seed, jobs=None, keep=False, group_size=10, level_note='', extra_evidence=None, quiet=False):
+    """run all cases of one property; write evidence/<prop>.json; print VIOLATION / KNOWN-FINDING lines; return exit code."""
+    t_start = time.time()
+    jobs = jobs or int(os.environ.get('VERIF_JOBS', str(os.cpu_count() or 8)))
+    work = os.path.join(VERIF, '.work', '%s_%s_%d' % (prop, tier, os.getpid()))
+    shutil.rmtree(work, ignore_errors=True); os.makedirs(work)
+    rdir = os.path.join(VERIF, 'replays', prop)
+    ids = set()
+    for c in cases:
+        assert c.cid not in ids, 'duplicate case id ' + c.cid
+        ids.add(c.cid)
+    # group by configuration
+    groups = {}
+    for c in cases: groups.setdefault(c.cfg.key(), []).append(c)
+    tasks = []
+    gi = 0
+    for key, cs in groups.items():
+        for ch in chunks(cs, group_size):
+            named = [('w%d' % i, c) for i, c in enumerate(ch)]
+            tasks.append((os.path.join(work, 'g%d' % gi), ch[0].cfg, named)); gi += 1
+    bycid = {c.cid: c for c in cases}
+    results = {}
+    def log(msg):
+        if not quiet: print(msg, flush=True)
+    log('[%s] %d cases in %d translation units, %d jobs' % (prop, len(cases), len(tasks), jobs))
+    with ProcessPoolExecutor(max_workers=jobs) as ex:
+        futs = [ex.submit(stage_translate, t) for t in tasks]
+        vf = []
+        for f in as_completed(futs):
+            for d in f.result():
+                results[d['cid']] = d
+                if d['status'] == 'TRANSLATED':
+                    vf.append(ex.submit(stage_verify, (bycid[d['cid']], d, keep)))
+        for f in as_completed(vf):
+            d = f.result(); results[d['cid']] = d
+        # replay stage
+        rp = []
+        for cid, d in results.items():
+            if d['status'] in ('FAIL', 'INAPPLICABLE'):
+                rp.append(ex.submit(stage_replay, (bycid[cid], d, seed)))
+        for f in as_completed(rp):
+            d = f.result(); results[d['cid']] = d
+    findings = load_known_findings()
+    violations = []; known = []; undecided = []; compile_errors = []
+    n_obl = n_dis = 0; n_obl_b = n_dis_b = 0
+    t_solver = t_symex = t_cbmc = t_clang = 0.0
+    funcs = []; passed = 0; forms = {}; t_wasted = 0.0
+    by_mode = {}
+    for cid in sorted(results, key=natural_key):
+        d = results[cid]; c = bycid[cid]
+        st = d['status']
+        t_solver += d.get('t_solver', 0) or 0; t_symex += d.get('t_symex', 0) or 0; t_cbmc += d.get('t_cbmc', 0) or 0
+        t_clang += d.get('t_compile', 0) or 0
+        if st in ('PASS', 'FAIL', 'INAPPLICABLE'):
+            if c.bounded:
+                n_obl_b += d.get('n_obligations', 0); n_dis_b += d.get('n_discharged', 0)
+            else:
+                n_obl += d.get('n_obligations', 0); n_dis += d.get('n_discharged', 0)
+            by_mode[c.mode] = by_mode.get(c.mode, 0) + 1
+        if st in ('PASS', 'FAIL', 'INAPPLICABLE'):
+            forms[d.get('form_used', '?')] = forms.get(d.get('form_used', '?'), 0) + 1
+            t_wasted += d.get('t_dfcc_wasted', 0) or 0
+        if st == 'PASS':
+            passed += 1
+            if len(funcs) < 2000:
+                funcs.append({'case': cid, 'entry_functions': d.get('info', {}).get('functions', [])[:6], 'ir_instructions': d.get('info', {}).get('instructions'),
+                              'obligations': d.get('n_obligations'), 'mode': c.mode, 'config': c.cfg.tag(),
+                              'enforced_by': d.get('form_used'), 'cbmc_s': round(d.get('t_cbmc', 0) or 0, 2)})
+        elif st in ('FAIL', 'INAPPLICABLE'):
+            rep = d.get('replay', {})
+            reproduced = rep.get('native', {}).get('reproduced', False)
+            if st == 'INAPPLICABLE' and not reproduced:
+                undecided.append((cid, d.get('detail', '') + ' (native replay found no mismatch)')); continue
+            f = match_finding(findings, c, d)
+            if f:
+                known.append((cid, f['text'], d.get('failed_names', [])))
+                # a known finding's failed obligations are not "discharged"; they are accounted separately
+                continue
+            os.makedirs(rdir, exist_ok=True)
+            rpath = os.path.join(rdir, c.safe_id() + '.json')
+            rep['verdict'] = 'reproduced on the real code' if reproduced else 'no-failing-input-found'
+            json.dump(rep, open(rpath, 'w'), indent=1, default=str)
+            violations.append((cid, rpath, reproduced, d.get('failed_names', [])))
+        elif st == 'COMPILE_ERROR':
+            compile_errors.append((cid, d.get('detail', '')))
+        else:
+            undecided.append((cid, d.get('detail', st)))
+    for cid, text, names in known:
+        print('KNOWN-FINDING: property=%s %s: %s [%s]' % (prop, cid, text[:150], '; '.join(n.split(':')[0] for n in names[:3])))
+    for cid, rpath, reproduced, names in violations:
+        print('VIOLATION property=%s replay=%s case=%s obligations=%s%s' % (prop, rpath, cid, '|'.join(n.split(':')[0] for n in names[:4]), '' if reproduced else ' no-failing-input-found'))
+    for cid, why in undecided[:40]:
+        log('UNDECIDED %s: %s' % (cid, why.replace('\n', ' ')[:300]))
+    for cid, why in compile_errors[:20]:
+        log('COMPILE-ERROR %s: %s' % (cid, why.replace('\n', ' ')[-400:]))
+    wall = time.time() - t_start
+    # known findings' failing obligations are excluded from both counters so that discharged == obligations
+    # exactly when nothing unexplained failed
+    kn_obl = sum(results[cid].get('n_obligations', 0) for cid, _, _ in known)
+    kn_dis = sum(results[cid].get('n_discharged', 0) for cid, _, _ in known)
+    kb = sum(1 for cid, _, _ in known if bycid[cid].bounded)
+    samples = [f for f in funcs[:3]]
+    for cid, rpath, reproduced, names in violations[:3]:
+        samples.append({'case': cid, 'failed': names[:5], 'replay': rpath})
+    if not samples and cases:
+        samples.append({'case': cases[0].cid, 'status': results.get(cases[0].cid, {}).get('status')})
+    modes = sorted(by_mode)
+    ev = {
+        'property_id': prop, 'tier': tier, 'seed': seed, 'level': 'proof',
+        'coverage': {
+            'obligations': n_obl - kn_obl, 'discharged': n_dis - kn_dis,
+            'checker_cmd': 'clang++-14 <cfg> -S -emit-llvm | tools/ir2c.py | goto-cc | goto-instrument --dfcc main --enforce-contract <entry> | cbmc ' + ' '.join(cbmc_flags(cases[0], 'N')) if cases else '',
+            'trusted_base': TRUSTED_BASE,
+            'backend': 'cbmc 6.11.0, SAT back end MiniSat 2.2.1 (default); contracts enforced by goto-instrument --dfcc',
+            'cases': len(cases), 'cases_proved': passed, 'cases_by_mode': by_mode,
+            'cases_by_enforcement': forms,
+            'enforcement_note': 'dfcc = contract enforced by goto-instrument --dfcc (requires/assigns/ensures instrumentation); assertion = the same requires/ensures clauses as assume/assert around a call on exact-extent nondeterministic objects, frame checked as inputs-unchanged + pointer checks (used where the DFCC-instrumented program exceeded the %ds / 4 GB budget)' % DFCC_BUDGET,
+            'dfcc_seconds_spent_before_fallback': round(t_wasted, 1),
+            'cases_undecided': len(undecided), 'cases_compile_error': len(compile_errors), 'cases_known_finding': len(known),
+            'undecided': [{'case': c_, 'reason': w[:300]} for c_, w in undecided[:100]],
+            'compile_errors': [{'case': c_, 'reason': w[-300:]} for c_, w in compile_errors[:50]],
+            'known_findings': [{'case': c_, 'finding': t, 'obligations': n[:4]} for c_, t, n in known[:200]],
+            'bounded_obligations': n_obl_b, 'bounded_discharged': n_dis_b,
+            'solver_seconds': round(t_solver, 2), 'symex_seconds': round(t_symex, 2), 'cbmc_seconds_total': round(t_cbmc, 2), 'clang_seconds_total': round(t_clang, 2),
+            'functions_under_contract': funcs[:400],
+            'functions_under_contract_total': len(funcs),
+            'configurations': sorted({c.cfg.tag() for c in cases}),
+            'extraction_drops': DROPPED,
+            'samples': samples,
+            'exhaustive': False,
+            'explanation': level_note,
+        },
+        'assumptions': TRUSTED_BASE + [MODE_ASSUMPTIONS[m] for m in modes if m in MODE_ASSUMPTIONS] + scan_assumes(),
+        'wall_s': round(wall, 1),
+        'violations': len(violations),
+    }
+    if extra_evidence: ev['coverage'].update(extra_evidence)
+    os.makedirs(os.path.join(VERIF, 'evidence'), exist_ok=True)
+    json.dump(ev, open(os.path.join(VERIF, 'evidence', prop + '.json'), 'w'), indent=1, default=str)
+    log('[%s] %s: cases=%d proved=%d known=%d violations=%d undecided=%d compile_errors=%d obligations=%d discharged=%d wall=%.0fs'
+        % (prop, tier, len(cases), passed, len(known), len(violations), len(undecided), len(compile_errors), n_obl - kn_obl, n_dis - kn_dis, wall))
+    if not keep: shutil.rmtree(work, ignore_errors=True)
+    if violations: return 1
+    if compile_errors or undecided:
+        hard = [u for u in undecided if 'timeout' not in u[1] and 'out of memory' not in u[1].lower()] + compile_errors
+        if hard: return 2
+    return 0
+
+_ASSUME_CACHE = None
+def scan_assumes():
+    """mechanical scan: every __CPROVER_assume in the fixed prelude / translator text."""
+    global _ASSUME_CACHE
+    if _ASSUME_CACHE is not None: return _ASSUME_CACHE
+    out = []
+    for root in (os.path.join(HERE, 'prelude'), HERE):
+        for fn in sorted(os.listdir(root)):
+            p = os.path.join(root, fn)
+            if not os.path.isfile(p) or not fn.endswith(('.h', '.py')): continue
+            for i, line in enumerate(open(p), 1):
+                if '__CPROVER_assume(' in line and 'scan' not in line and '#define __CPROVER_assume' not in line:
+                    out.append('assume at tools/%s:%d: %s' % (os.path.relpath(p, HERE), i, line.strip()[:140]))
+    _ASSUME_CACHE = out
+    return out
